@@ -182,6 +182,36 @@ def step (s : St) (line : String) : IO St := do
   let c := s.c
   let N := String.toNat!
   match toks with
+  | "plf" :: off :: k :: n :: rest =>
+    let ws := (toks2nats (rest.take (N n))).toArray
+    let got := match RH.lookfor (N k) ws (N off) with
+      | .empty i => ["0", toString i] | .found i => ["1", toString i] | .needInsert => ["2", "0"]
+    if got == rest.drop (N n) then pure (s.bump "op:plf") else s.fail s!"p_lookfor {k} off {off} on {ws}: model {got} impl {rest.drop (N n)}"
+  | "prm" :: off :: k :: n :: rest =>
+    let ws := (toks2nats (rest.take (N n))).toArray
+    let (b, a') := RH.premove (N k) ws (N off)
+    let want := (if b then "1" else "0") :: a'.toList.map toString
+    if want == rest.drop (N n) then pure (s.bump "op:prm") else s.fail s!"p_remove {k} off {off} on {ws}: model {want} impl {rest.drop (N n)}"
+  | "pin" :: off :: k :: n :: rest =>
+    let ws := (toks2nats (rest.take (N n))).toArray
+    match RH.pinsert (N k) ws (N off) with
+    | .ok (i, a') =>
+      let want := toString i :: a'.toList.map toString
+      if want == rest.drop (N n) then pure (s.bump "op:pin") else s.fail s!"p_insert {k} off {off} on {ws}: model {want} impl {rest.drop (N n)}"
+    | .error _ => s.fail s!"p_insert {k} off {off} on {ws}: model error"
+  | ["cab", x, b] =>
+    if c.cab (N x) == N b then pure (s.bump "op:cab") else s.fail s!"compute_array_bits {x}: model {c.cab (N x)} impl {b}"
+  | "tnew" :: n :: rest =>
+    let v := toks2nats (rest.take (N n))
+    let want := match TinyC.newSortedDeduped c.codec v with | some t => toString (TinyC.toWord c.codec t) | none => "none"
+    if [want] == rest.drop (N n) then pure (s.bump "op:tnew") else s.fail s!"Tiny::new {v}: model {want} impl {rest.drop (N n)}"
+  | ["tcon", w, e, b] =>
+    let t := TinyC.ofWord c.codec (N w)
+    if (TinyC.contains c.codec t (N e)) == (b == "1") then pure (s.bump "op:tcon") else s.fail s!"Tiny::contains word {w} value {e}: impl {b}"
+  | ["tins", w, e, r] =>
+    let t := TinyC.ofWord c.codec (N w)
+    let want := match TinyC.insert c.codec t (N e) with | some t' => toString (TinyC.toWord c.codec t') | none => "none"
+    if want == r then pure (s.bump "op:tins") else s.fail s!"Tiny::insert word {w} value {e}: model {want} impl {r}"
   | ["fits", ty, raw, enc] =>
     match fitsModel ty (N raw) with
     | none => s.fail s!"fits: unknown type {ty}"
